@@ -352,9 +352,8 @@ EvalU(n, st) ==
 \* evaluate expressions left to right (call arguments, array elements); the first error wins
 EvalList(ns, i, acc, st) ==
   IF i > Len(ns) THEN R(Arr(acc), st)
-  ELSE LET r == EvalI(ns[i], st) IN
+  ELSE LET r == EvalU(ns[i], st) IN   \* like operands: `return` unwrapped, break/continue an error
        IF IsErr(r.v) THEN r
-       ELSE IF IsCtl(r.v) THEN R(Err("control value in expression list"), r.st)
        ELSE EvalList(ns, i + 1, Append(acc, r.v), r.st)
 
 \* map literal: pairs in source order, later duplicates overwrite; an error in a key or value is the result
